@@ -64,11 +64,14 @@ CLAIMS = {
              "every write into fixed-size destinations (T[N], std::array, std::bitset, vector<bool> incl. growth and "
              "max_size guard); AST rules decide new[]/delete[]/unique_ptr form agreement; a call-graph rule shows "
              "that only std::exception-derived types are thrown from the evaluation entry points, no re-throw "
-             "outside a handler, no throw in noexcept functions (positive control analysed on every run). The bounds "
-             "of the ArgListIterator cursor and termination are NOT decided (needs relational invariants across "
-             "calls that the engine does not infer).",
+             "outside a handler, no throw in noexcept functions (positive control analysed on every run). The cursor of "
+             "detail::ArgListIterator is decided by an inductive four-case invariant relating word index and "
+             "character position to argc and the symbolic per-word lengths (constructor establishes it, operator++ "
+             "preserves it from every case, nested step by assume-guarantee), with a bounds obligation on every "
+             "argv[ i] and word[ j] for all argument vectors. Termination is NOT decided.",
         note="trusted base: clang front end, extractor, cv/lin.py + cv/bounds.py and its models of "
-             "strlen/strcpy/new[]/std::vector; argv[0] is NUL-terminated; ArgListIterator not covered",
+             "strlen/strcpy/new[]/std::vector/std::string; argc >= 1, argv words are C strings shorter than 2 GiB, "
+             "argv[argc] is null",
         also=("engine A (cfg.py)",),
         technique="static analysis: relational abstract interpretation for buffer capacities + AST/call-graph rules"),
     "C05": dict(
